@@ -1122,18 +1122,10 @@ func (c *specCtx) evalRegion(x Expr) region {
 		}
 		return region{kind: "loc", loc: p.L}
 	}
-	if s, ok := x.(*ESel); ok {
-		if base, ok := c.tryEval(s.X); ok {
-			if p, ok := base.(VPtr); ok && p.L != nil {
-				i, _, ok := fieldIndex(p.Elem, s.Name)
-				if !ok {
-					c.fail("no field %s", s.Name)
-				}
-				nl := *p.L
-				nl.Path = append(append([]pathStep(nil), p.L.Path...), pathStep{Field: i})
-				// a slice-typed field named in modifies means the field itself (header)
-				return region{kind: "loc", loc: &nl}
-			}
+	if _, ok := x.(*ESel); ok {
+		if l, _, ok := c.lvalue(x); ok {
+			// a field named in modifies means the field itself (for slice-typed fields: the header)
+			return region{kind: "loc", loc: l}
 		}
 	}
 	if id, ok := x.(*EIdent); ok && c.fr != nil {
@@ -1284,4 +1276,42 @@ func nilLike(v Val) Val {
 		}
 	}
 	return rebuildLike(v, z)
+}
+
+// lvalue resolves a field/deref/index expression to a location (and its type).
+func (c *specCtx) lvalue(x Expr) (*Loc, types.Type, bool) {
+	switch n := x.(type) {
+	case *EUn:
+		if n.Op == "*" {
+			if v, ok := c.tryEval(n.X); ok {
+				if p, ok := v.(VPtr); ok && p.L != nil {
+					return p.L, p.Elem, true
+				}
+			}
+		}
+	case *ESel:
+		// pointer base: p.f
+		if v, ok := c.tryEval(n.X); ok {
+			if p, ok := v.(VPtr); ok && p.L != nil {
+				i, ft, ok := fieldIndex(p.Elem, n.Name)
+				if !ok {
+					return nil, nil, false
+				}
+				nl := *p.L
+				nl.Path = append(append([]pathStep(nil), p.L.Path...), pathStep{Field: i})
+				return &nl, ft, true
+			}
+		}
+		// nested: (lvalue).f
+		if bl, bt, ok := c.lvalue(n.X); ok {
+			i, ft, ok := fieldIndex(bt, n.Name)
+			if !ok {
+				return nil, nil, false
+			}
+			nl := *bl
+			nl.Path = append(append([]pathStep(nil), bl.Path...), pathStep{Field: i})
+			return &nl, ft, true
+		}
+	}
+	return nil, nil, false
 }
